@@ -151,6 +151,7 @@ def oracle(case, line):
     # what each peer last declared (INTERESTED / NOT_INTERESTED on the upload side; remote UNCHOKE while we
     # are interested / CHOKE or loss of interest on the download side), independent of the client's flags
     decl = {"u": {}, "d": {}}
+    rot = {"upload": {"n": 0, "elig": set(), "seen": set()}, "download": {"n": 0, "elig": set(), "seen": set()}}
     for i, d in enumerate(dumps):
         op = ops[i - 1] if i > 0 else ["init"]
         if d.startswith("ERR"):
@@ -182,6 +183,33 @@ def oracle(case, line):
             bad += check_limits(op, prev[2], dn, "download")
             # zero_on_close for the closed connection: it is in no list afterwards (check_counters'
             # entry-foreign) ; deterministic rotation: a cycle with quota >= 1 and a candidate unchokes someone new
+        # ---- rotation (fairness clause). Static conditions under which the quota of a tick is exactly the
+        #      global maximum and nothing else limits the choice: one group, no per-torrent/per-group limits.
+        if prev is not None:
+            for side, hp, hn in (("upload", prev[1], up), ("download", prev[2], dn)):
+                st = rot[side]
+                plain = (len(hp["Q"]) == 1 and hp["Q"][0]["max"] == UNL and hp["max"] >= 1 and
+                         all(e["max"] == UNL and e["min"] == 0 for e in hp["T"]))
+                elig = lambda h: set(c for c, x in enumerate(h["C"]) if x["a"] and x["q"] and not x["s"])
+                if op[0] == "TK" and plain:
+                    waiting = set(c for c in elig(hp) if not hp["C"][c]["u"])
+                    full = hp["Q"][0]["cu"] == hp["max"]
+                    # (a) cycle_rotates: all slots taken and somebody waiting => the tick gives a slot to a waiting peer
+                    if full and waiting and not any(hn["C"][c]["u"] for c in waiting if c < len(hn["C"])):
+                        bad.append(("rotation-stalled", "%s: receive_tick with all %d slots taken and %d interested peers waiting unchoked none of them "
+                                    "(no rotation: waiting peers can never get a slot)" % (side, hp["max"], len(waiting))))
+                    # (b) coverage over a streak of ticks with constant interest (upload side: random() breaks ties)
+                    if st["n"] == 0:
+                        st["elig"], st["seen"] = elig(hp), set(c for c in elig(hp) if hp["C"][c]["u"])
+                    st["n"] += 1
+                    st["elig"] &= elig(hn)
+                    st["seen"] |= set(c for c, x in enumerate(hn["C"]) if x["u"])
+                    k = len(st["elig"]) - hp["max"]
+                    if side == "upload" and k >= 1 and st["n"] >= 40 * (k + 1) and (st["elig"] - st["seen"]):
+                        bad.append(("rotation-starvation", "upload: after %d consecutive ticks with constant interest (%d slots, %d interested) "
+                                    "connection(s) %s never got a slot" % (st["n"], hp["max"], len(st["elig"]), sorted(st["elig"] - st["seen"]))))
+                elif op[0] != "AD":
+                    st["n"] = 0
         prev = (now, up, dn)
         if bad:
             break
@@ -200,7 +228,72 @@ def nontrivial(line):
     return bool(re.search(r"C\d+:1.1", line)) and bool(re.search(r"C\d+:1.0..,[1-9]", line))
 
 
+def probe_params(impl):
+    """run `harness --params`, write coq/C11/ParamsProbe.v (only if changed), return the values"""
+    import os
+    out, err, rc = ltv.run_lines(impl, [], args=["--params"], timeout=120)
+    vals = {}
+    for l in out:
+        t = l.split()
+        if len(t) >= 2:
+            vals[t[0]] = [int(x) for x in t[1:]]
+    def n(name):
+        return vals[name][0] if name in vals and len(vals[name]) == 1 else 0
+    lines = ["(* WRITTEN by props/c11.py from `harness/c11.cc --params` (compiled code) on every run. Do not edit. *)",
+             "From Coq Require Import NArith ZArith List.", "Import ListNotations.", "Module Probe."]
+    for name in ("heur_rows", "order_base", "order_max_size"):
+        lines.append("Definition %s : N := %d%%N." % (name, n(name)))
+    for i in range(4):
+        for w in ("choke_w%d" % i, "unchoke_w%d" % i):
+            lines.append("Definition %s : list N := [%s]%%N." % (w, "; ".join(str(x) for x in vals.get(w, []))))
+    lines.append("Definition global_max_cap : N := %d%%N." % n("global_max_cap"))
+    for name in ("hold_queued_us", "hold_unsnub_us"):
+        v = n(name) if name in vals else -3
+        lines.append("Definition %s : Z := %s%%Z." % (name, ("(%d)" % v) if v < 0 else str(v)))
+    lines += ["End Probe.", ""]
+    txt = "\n".join(lines)
+    path = os.path.join(ltv.COQ, "C11", "ParamsProbe.v")
+    old = open(path).read() if os.path.exists(path) else None
+    if old != txt:
+        tmp = path + ".%d.tmp" % os.getpid()
+        with open(tmp, "w") as f:
+            f.write(txt)
+        os.replace(tmp, path)
+    flat = {k: (v[0] if len(v) == 1 else v) for k, v in vals.items()}
+    return flat, txt
+
+
+def source_crosscheck(probe):
+    """optional: the old anchored regexes on the source text; only disagreements of MATCHING regexes are noted"""
+    import importlib.util, os, re
+    spec = importlib.util.spec_from_file_location("params_c11", os.path.join(ltv.VERIF, "gen", "params_c11.py"))
+    m = importlib.util.module_from_spec(spec)
+    spec.loader.exec_module(m)
+    notes = []
+    names = {"c11_heur_rows": "heur_rows", "c11_order_base": "order_base", "c11_order_max_size": "order_max_size",
+             "c11_global_max_cap": "global_max_cap"}
+    for ent in getattr(m, "CROSSCHECK", []):
+        name, rel, rx = ent[0], ent[1], ent[2]
+        try:
+            src = open(os.path.join(ltv.REPO, rel), errors="replace").read()
+        except OSError:
+            continue
+        mm = re.search(rx, src, flags=re.S)
+        if not mm or name not in names:
+            continue
+        try:
+            val = ent[4](mm) if len(ent) > 4 else int(eval(mm.group(1).replace("(", "").replace(")", ""), {}))
+        except Exception:
+            continue
+        if isinstance(val, int) and val != probe.get(names[name]):
+            notes.append("%s: source regex says %s, compiled code says %s" % (name, val, probe.get(names[name])))
+    return notes
+
+
 def run(rep, tier, seed, replay):
+    # constants of the COMPILED code (probe), written to coq/C11/ParamsProbe.v before the Coq build
+    impl = ltv.build_harness("c11", ["c11.cc"])
+    probe, probe_txt = probe_params(impl)
     coq = ltv.coq_build("C11")
     rep.cov.update(obligations=coq["obligations"], discharged=coq["discharged"], checker_cmd=coq["checker_cmd"],
                    theorems=coq["theorems"], axioms_per_theorem=coq["axioms"],
@@ -213,14 +306,14 @@ def run(rep, tier, seed, replay):
                        "ResourceManager::erase, CHOKE/UNCHOKE bytes on the wire (m_send_choked; needs the session harness)",
                        "python oracle props/c11.py (counters_inv / limits / zero_on_close on implementation dumps)"]))
     model = ltv.build_model("C11")
-    impl = ltv.build_harness("c11", ["c11.cc"])
+    menv = {"C11_HOLD_QUEUED_US": str(probe.get("hold_queued_us", 10000000)), "C11_HOLD_UNSNUB_US": str(probe.get("hold_unsnub_us", 10000000))}
     if replay:
         cases = [json.load(open(replay))["case"]]
         cases = [c for c in cases if not c.startswith("WIRE ")]
         stats = {"replay": 1}
     else:
         cases, stats = G.gen(seed, tier)
-    mo = ltv.run_sharded(model, cases)
+    mo = ltv.run_sharded(model, cases, env=menv)
     io = ltv.run_sharded(impl, cases)
     nt = set()
     mism = 0
@@ -279,6 +372,7 @@ def run(rep, tier, seed, replay):
     rep.cov.update(evaluations=len(cases), op_steps=nops, distinct_nontrivial=len(nt),
                    rule="cases = corpus + hand list + structured histories + malformed histories (+ exhaustive small scope in thorough); "
                         "non-trivial = distinct case in which the implementation unchoked at least one connection and later choked one",
+                   probed_params=probe, source_crosscheck_notes=source_crosscheck(probe),
                    samples=samples, input_distribution=stats, mismatches=mism, wire_cases=wire_n, wire_steps=wire_steps,
                    exhaustive=(tier == "thorough"))
     rep.assumptions += ["at most 16 connections per entry list and at most 16 choke groups (std::sort is a stable insertion sort there)",
